@@ -456,6 +456,19 @@ def _where(a, b):
 
 FMT_IN = {"fasta": [], "phylip": ["-p"], "nexus": ["-x"], "clustal": ["-u"]}
 
+# names routed to the protein branch of `compute distance` / `build distboot` (models/protein ModelStringToInt knows the first
+# seven; a name it does not know - "dayhoff", upper case - makes the harness answer `err nomodel` and the command must fail too)
+PROT_MODEL_NAMES = ("dayoff", "jtt", "mtrev", "lg", "wag", "hivb", "ab", "dayhoff", "JTT", "LG")
+
+
+def _dist_lib_line(model, rmgaps, gapmode, rmamb, gamma, alpha, rng4, rows):
+    """the harness line of the LIBRARY call behind `goalign compute distance -m <model>` on one alignment: dna.DistMatrix
+    (`distmatrix`) or, for a protein model, NewProtDistModel / InitModel(nil, nil) / MLDist on a fresh model object
+    (`protdistmatrix`; --gap-mut, --rm-ambiguous and the ranges do not reach the protein code)"""
+    if model in PROT_MODEL_NAMES:
+        return "\t".join(["protdistmatrix", model, rmgaps, gamma, alpha if alpha != "0" else "0", rows])
+    return "\t".join(["distmatrix", model, rmgaps, gapmode, rmamb, gamma, alpha if alpha != "0" else "1", "_", rng4, rows])
+
 
 def run_det_case(c, timeout_s=120.0):
     """ops `det*` (property C11), run on the goalign binary built from the working tree.
@@ -516,7 +529,7 @@ def run_det_case(c, timeout_s=120.0):
             gamma = "0" if alpha == "0" else "1"
             libs = []
             for rows in groups.split(";;"):
-                line = "\t".join(["distmatrix", model, rmgaps, "0", "0", gamma, alpha if alpha != "0" else "1", "_", "-1,-1,-1,-1", rows])
+                line = _dist_lib_line(model, rmgaps, "0", "0", gamma, alpha, "-1,-1,-1,-1", rows)
                 libs.append((rows, _worker_run(os.path.join(BUILD, "harness"), [(0, line)], 20.0).get(0, "?")))
             argv = ["compute", "distance", "-m", model, "-p", "-t", threads]
             if rmgaps == "1":
@@ -576,7 +589,8 @@ def run_det_case(c, timeout_s=120.0):
             rows, model, rmgaps, gapmode, rmamb, alpha, r1, r2 = [str(x) for x in c.args[:8]]
             gamma = "0" if alpha == "0" else "1"
             rng4 = "-1,-1,-1,-1" if r1 == "_" else "%s,%s" % (r1.replace(":", ","), r2.replace(":", ","))
-            line = "\t".join(["distmatrix", model, rmgaps, gapmode, rmamb, gamma, alpha if alpha != "0" else "1", "_", rng4, rows])
+            average = len(c.args) > 8 and str(c.args[8]) == "avg"
+            line = _dist_lib_line(model, rmgaps, gapmode, rmamb, gamma, alpha, rng4, rows)
             lib = _worker_run(os.path.join(BUILD, "harness"), [(0, line)], 20.0).get(0, "?")
             argv = ["compute", "distance", "-m", model]
             if rmgaps == "1":
@@ -590,6 +604,8 @@ def run_det_case(c, timeout_s=120.0):
                 argv += ["--alpha", repr(float(num) / float(den))]
             if r1 != "_":
                 argv += ["--range1", r1, "--range2", r2]
+            if average:
+                argv.append("-a")
             fa = "".join(">%s\n%s\n" % tuple(r.split(":", 1)) for r in rows.split(","))
             cli = exec_goalign(argv, fa.encode(), {}, timeout_s)
             if not lib.startswith("ok "):
@@ -602,6 +618,25 @@ def run_det_case(c, timeout_s=120.0):
             mat = [[_st.unpack(">d", bytes.fromhex(x))[0] for x in r.split(",")] for r in lib[3:].split(";")]
             lines = [l for l in cli[1].decode("utf-8", "replace").split("\n") if l != ""]
             names = [r.split(":", 1)[0] for r in rows.split(",")]
+            if average:
+                # -a: writeDistAverage's mean of the entries above the diagonal that are not NaN, 12 decimals
+                tot, cnt = 0.0, 0
+                for i in range(len(mat)):
+                    for j in range(i + 1, len(mat)):
+                        if mat[i][j] == mat[i][j]:
+                            tot += mat[i][j]
+                            cnt += 1
+                if cnt == 0:
+                    ok = lines == ["NaN"]
+                else:
+                    x = tot / cnt
+                    try:
+                        ok = len(lines) == 1 and (abs(float(lines[0]) - x) <= 5.1e-13 * max(1.0, abs(x)) or
+                                                  (x in (float("inf"), float("-inf")) and lines[0] in ("+Inf", "-Inf") and (lines[0][0] == "-") == (x < 0)))
+                    except ValueError:
+                        ok = False
+                c.impl = ("same rc=0 out=%d files=0" % len(cli[1])) if ok else "differ average library=%r command-line=%r" % (tot / cnt if cnt else "NaN", lines[:2])
+                return
             if len(lines) != len(mat) + 1 or lines[0].strip() != str(len(mat)):
                 c.impl = "differ shape"
                 return
